@@ -6,7 +6,7 @@ Import ListNotations.
 From GA.Base Require Import Bytes Case Align.
 From GA.Gen Require Import Alpha.
 From GA.Model Require Import Container.
-From GA.Proofs Require Import ContainerProofs ConcatProofs.
+From GA.Proofs Require Import ContainerProofs ConcatProofs ConcatRefine.
 
 (* The invariant: every index entry designates an object of the list carrying
    that name, every name absent from the index is absent from the list, object
@@ -119,3 +119,14 @@ Theorem C01_invariant_histories_with_concat :
   forall h kind alpha, all_allowed h (empty_state kind alpha) = true -> Inv (run h (empty_state kind alpha)).
 Proof. intros h kind alpha Ha. apply run_inv_with_concat; [exact Ha | apply Inv_empty]. Qed.
 Print Assumptions C01_invariant_histories_with_concat.
+
+(* on uniquely named rows the container's Concat (appends through the name index, new rows through
+   AddSequence) is the row-level concatenation of C04 (Model/Sites.v): rows paired by name, absent rows
+   padded with gaps, same success flag *)
+Theorem C01_concat_is_rowwise_concat :
+  forall st calpha c,
+  Inv st -> NoDup (map oname (c_objs st)) -> c_len st = alen (abs st) ->
+  abs (fst (step st (OpConcat calpha c))) = fst (Sites.concat (c_alpha st) calpha (abs st) c) /\
+  snd (step st (OpConcat calpha c)) = snd (Sites.concat (c_alpha st) calpha (abs st) c).
+Proof. exact concat_refines. Qed.
+Print Assumptions C01_concat_is_rowwise_concat.
